@@ -659,6 +659,7 @@ func c15RealFiles(run *hx.Run, o *hx.Oracle, dir string) {
 		{"format3-desc-index", "1", []string{"CREATE TABLE t(a,b)", "INSERT INTO t VALUES(1,'x'),(2,'y'),(3,'z'),(4,'w'),(5,'v')", "CREATE INDEX i ON t(a DESC, b)", "ALTER TABLE t ADD COLUMN c DEFAULT 7"}},
 		{"format4-desc-index", "0", []string{"CREATE TABLE t(a,b)", "INSERT INTO t VALUES(1,'x'),(2,'y'),(3,'z'),(4,'w'),(5,'v')", "CREATE INDEX i ON t(a DESC, b)"}},
 	}
+	var made []fcase // name + path (in legacy)
 	for _, c := range cases {
 		p := filepath.Join(dir, c.name+".sqlite")
 		args := append([]string{p, c.legacy}, c.sql...)
@@ -666,6 +667,19 @@ func c15RealFiles(run *hx.Run, o *hx.Oracle, dir string) {
 			run.Inconclusive("mkformat failed: " + string(out))
 			continue
 		}
+		made = append(made, fcase{name: c.name, legacy: p})
+		// the same file with 0 in the schema format field: what a foreign writer or a damaged header leaves.
+		// SQLite reads 0 as format 1 (DESC ignored); the file is either refused or read and SEARCHED like that
+		if b, err := os.ReadFile(p); err == nil && binary.BigEndian.Uint32(b[44:48]) < 4 && strings.Contains(c.name, "desc-index") {
+			copy(b[44:48], []byte{0, 0, 0, 0})
+			p0 := filepath.Join(dir, c.name+"-as-format0.sqlite")
+			if os.WriteFile(p0, b, 0o644) == nil {
+				made = append(made, fcase{name: c.name + "-as-format0", legacy: p0})
+			}
+		}
+	}
+	for _, c := range made {
+		p := c.legacy
 		b, _ := os.ReadFile(p)
 		format := int(binary.BigEndian.Uint32(b[44:48]))
 		want, err := o.Query(p, "SELECT count(*) FROM t")
